@@ -85,6 +85,25 @@ Theorem C20_window_is_pad_or_view :
 Proof. exact window_spec. Qed.
 Print Assumptions C20_window_is_pad_or_view.
 
+(* window(cube, shape=...) is pad on the image axes (1, 2) -- in particular a cube whose (depth, rows)
+   happens to equal the requested (rows, cols) is still padded / cropped *)
+Theorem C20_window_cube_shape_is_pad :
+  forall (S : Scalar) (c : cube S) (h w : Z), cd c * cr c * cc c <> 1 ->
+  window3 c (Some (h, w)) None = pad3 c h w /\ window3 c None None = Ok c.
+Proof. exact window3_shape_is_pad. Qed.
+Print Assumptions C20_window_cube_shape_is_pad.
+
+(* window(cube, slice=(r0, r1, c0, c1)) in the model (= the code with proposed fix c20-window-slice-cube.patch;
+   the committed code slices the leading axes of the cube: known finding C20-window-slice-cube-axes, recognised by
+   the check): every layer is the 2-D window of that layer *)
+Theorem C20_window_cube_slice_is_layerwise :
+  forall (S : Scalar) (c : cube S) (r0 r1 c0 c1 k : Z), cd c * cr c * cc c <> 1 ->
+  exists b, window3 c None (Some (r0, r1, c0, c1)) = Ok b /\ cd b = cd c /\
+    cr b = nr (np_slice (cslice c k) r0 r1 c0 c1) /\ cc b = nc (np_slice (cslice c k) r0 r1 c0 c1) /\
+    forall i j, cget b k i j = get (np_slice (cslice c k) r0 r1 c0 c1) i j.
+Proof. exact window3_slice_layers. Qed.
+Print Assumptions C20_window_cube_slice_is_layerwise.
+
 (* boundary is the exact bounding box of the samples that pass the threshold test [p]: every such
    sample is inside, every side is touched; with no such sample numpy raises IndexError *)
 Theorem C20_boundary_is_exact_bounding_box :
